@@ -50,7 +50,7 @@ func init() {
 		Assumptions: []string{"exactly-once is only asserted when the broker kept the session", "a PUBCOMP that arrives together with the cut may legitimately be followed by one more PUBREL (select race in the library)"},
 		Gen: func(tier string, seed int64) []fw.Case {
 			return genRetry(retrySpec{
-				Workloads:   []string{"q2x1", "q2x2", "q2x3", "q2mix", "q2sub", "mixed", "preset", "echo", "sw1"},
+				Workloads:   []string{"q2x1", "q2x2", "q2x3", "q2mix", "q2sub", "mixed", "preset", "echo", "sw1", "preq2"},
 				Configs:     withClients(cfgs(allMethods, []string{"keep"}, []bool{false, true}), 1, "retry"),
 				Singles:     true,
 				Pairs:       pick(tier, []string{"q2x1", "q2x2"}, []string{"q2x1", "q2x2", "q2x3", "q2mix"}),
